@@ -14,6 +14,7 @@ import (
 	"reflect"
 	"strings"
 	"sync"
+	"time"
 )
 
 // VerifC04Msg is one message for VerifC04Build: the message (Topic, Partition, Key, Value, Headers, Timestamp,
@@ -155,14 +156,15 @@ func VerifC04Build(conf *Config, pid int64, epoch int16, msgs []VerifC04Msg) (re
 
 // VerifC04Success is one message delivered on the successes channel by VerifC04HandleSuccess.
 type VerifC04Success struct {
-	Msg    *ProducerMessage
-	Offset int64
+	Msg       *ProducerMessage
+	Offset    int64
+	Timestamp time.Time // msg.Timestamp as delivered
 }
 
 // VerifC04HandleSuccess runs brokerProducer.handleSuccess on the set with a response holding, for every partition
 // of the set, ErrNoError and the base offset bases(topic, partition).  Returns the successes in channel order and
-// the number of error events.
-func (h *VerifC04Set) VerifC04HandleSuccess(version int16, bases func(topic string, partition int32) int64) (out []VerifC04Success, nerr int) {
+// the number of error events.  The block's Timestamp (zero: none) is the log-append time the broker answered.
+func (h *VerifC04Set) VerifC04HandleSuccess(version int16, bases func(topic string, partition int32) (int64, time.Time)) (out []VerifC04Success, nerr int) {
 	p := h.parent
 	bp := &brokerProducer{parent: p, broker: &Broker{id: 1}, buffer: newProduceSet(p), currentRetries: map[string]map[int32]error{}}
 	resp := &ProduceResponse{Version: version, Blocks: map[string]map[int32]*ProduceResponseBlock{}}
@@ -171,7 +173,8 @@ func (h *VerifC04Set) VerifC04HandleSuccess(version int16, bases func(topic stri
 		if resp.Blocks[topic] == nil {
 			resp.Blocks[topic] = map[int32]*ProduceResponseBlock{}
 		}
-		resp.Blocks[topic][partition] = &ProduceResponseBlock{Err: ErrNoError, Offset: bases(topic, partition)}
+		base, ts := bases(topic, partition)
+		resp.Blocks[topic][partition] = &ProduceResponseBlock{Err: ErrNoError, Offset: base, Timestamp: ts}
 		n += len(pSet.msgs)
 	})
 	p.inFlight.Add(n)
@@ -179,7 +182,7 @@ func (h *VerifC04Set) VerifC04HandleSuccess(version int16, bases func(topic stri
 	for {
 		select {
 		case m := <-p.successes:
-			out = append(out, VerifC04Success{m, m.Offset})
+			out = append(out, VerifC04Success{m, m.Offset, m.Timestamp})
 			continue
 		case <-p.errors:
 			nerr++
